@@ -257,14 +257,8 @@ Print Assumptions C20_loc_collision_refuted.
 (* hence the full statement does not hold for the unchanged code *)
 Theorem C20_full_refuted : ~ C20_full.
 Proof.
-  intros H.
-  destruct C20_t14_string_name_refuted as [o [[Hc Hv] [Ho _]]].
-  specialize (H fc_text gbk0 _ o Hc Hv).
-  revert Ho H. unfold check in Hc. vm_compute in Hc. inversion Hc; subst o. clear Hc Hv.
-  intros _ H.
-  assert (K : In (14, mkLoc 1 4 1 13) []).
-  { apply H. eexists. split; [left; reflexivity|split; reflexivity]. }
-  destruct K.
+  destruct C20_t14_string_name_refuted as [o [Hvo [Ho _]]].
+  exact (full_refuted_from _ o 14 Hvo Ho).
 Qed.
 Print Assumptions C20_full_refuted.
 
@@ -290,7 +284,9 @@ Example C20_t14_guard_example :
   let a2 := EParens (EIndex (EName [97] (mkLoc 1 8 1 9)) (EStr [98] (mkLoc 1 10 1 11)) (mkLoc 1 8 1 11)) (mkLoc 1 7 1 12) in
   path a1 = true /\ path a2 = true /\ located a1 /\ located a2 /\ Pattern14 fc_text TkOpEq a1 a2.
 Proof.
-  cbv zeta. repeat split; try reflexivity; try discriminate.
+  cbv zeta. split; [reflexivity|]. split; [reflexivity|].
+  split; [split; [reflexivity|discriminate]|]. split; [split; [reflexivity|discriminate]|].
+  split.
   - cbn. tauto.
   - apply same_b_iff. reflexivity.
 Qed.
